@@ -6,6 +6,7 @@ pub mod c06;
 pub mod c07;
 pub mod c08;
 pub mod c09;
+pub mod c10;
 
 use crate::Prop;
 
@@ -19,6 +20,7 @@ pub fn lookup(id: &str) -> Option<Box<dyn Prop>> {
         "C07" => Box::new(c07::C07),
         "C08" => Box::new(c08::C08),
         "C09" => Box::new(c09::C09),
+        "C10" => Box::new(c10::C10),
         _ => return None,
     })
 }
